@@ -25,6 +25,9 @@ type c04Input struct {
 	Empty bool `json:"empty,omitempty"`
 	// TwoNames: every container is known to the daemon under two names (it is still one container).
 	TwoNames bool `json:"two_names,omitempty"`
+	// Pre: the same Querier first answers a selection of the containers n1|n2, abandoned after Pre-1 records
+	// (0 = no earlier query).
+	Pre int `json:"pre,omitempty"`
 }
 
 func c04Rec(in c04Input, i, j, ts int) (msg string, ns int64) {
@@ -128,6 +131,10 @@ func c04Oracle(in c04Input, o selectObs) string {
 }
 
 func c04Exec(c *vsched.Ctx, in c04Input) selectObs {
+	if in.Pre > 0 {
+		selectPre = &selectPreT{Only: "n1|n2", Drain: in.Pre - 1}
+		defer func() { selectPre = nil }()
+	}
 	obs, _ := runSelect(c, c04Containers(in), in.Perm, logqlengine.SelectLogsParams{}, 0, 0, false, nil)
 	return obs
 }
@@ -288,6 +295,9 @@ func c04Run(r *vkit.Run) {
 	for _, logs := range [][][]int{{{1, 2}, {1, 2}}, {{1}, {1}, {1}}, {{2, 2, 3}, {1, 3}}, {{1, 1, 1}, {}, {1}}} {
 		emit(c04Input{Logs: logs, Mode: "bound", Bound: 1, Empty: true})
 		emit(c04Input{Logs: logs, Mode: "bound", Bound: 1, TwoNames: true})
+		for pre := 1; pre <= 3; pre++ {
+			emit(c04Input{Logs: logs, Mode: "bound", Bound: 1, Pre: pre})
+		}
 	}
 	// (c) every completion order of the concurrent opens for N = 2..5.
 	maxN := 5
